@@ -755,51 +755,55 @@ fn dump_statics(tcx: TyCtxt<'_>) -> Vec<String> {
                 let t = tcx.type_of(did).instantiate_identity().skip_norm_wip();
                 let mut v = String::from("null");
                 let mut bytes = String::from("null");
-                // only monomorphic consts can be evaluated
-                let generics = tcx.generics_of(did);
-                if generics.own_requires_monomorphization() || generics.parent_count > 0 && {
-                    let mut g = generics;
-                    let mut req = false;
-                    loop {
-                        if g.own_requires_monomorphization() { req = true; break; }
-                        match g.parent { Some(p) => g = tcx.generics_of(p), None => break }
-                    }
-                    req
-                } {
-                    // skip
+                let mut ptrs: Vec<String> = vec![];
+                let has_body = tcx.hir_maybe_body_owned_by(ldid).is_some();
+                if !has_body {
+                    // associated const declared in a trait without a default value
                 } else if let Ok(val) = tcx.const_eval_poly(did) {
-                    if t.is_integral() || t.is_bool() {
-                        if let Some(si) = val.try_to_scalar_int() {
-                            let size = si.size();
-                            v = if t.is_signed() {
-                                format!("{}", si.to_int(size))
-                            } else {
-                                format!("{}", si.to_uint(size))
-                            };
-                        }
-                    } else {
-                        // arrays etc.: dump raw bytes where the value is by-ref memory
-                        if let rustc_middle::mir::ConstValue::Indirect { alloc_id, offset } = val {
-                            if let rustc_middle::mir::interpret::GlobalAlloc::Memory(m) =
-                                tcx.global_alloc(alloc_id)
-                            {
-                                let mi = m.inner();
-                                let raw = mi.inspect_with_uninit_and_ptr_outside_interpreter(
-                                    offset.bytes() as usize..mi.len(),
-                                );
-                                bytes = esc(
-                                    &raw.iter().map(|b| format!("{:02x}", b)).collect::<String>(),
-                                );
+                    if let Some(si) = val.try_to_scalar_int() {
+                        let size = si.size();
+                        v = if t.is_signed() {
+                            format!("{}", si.to_int(size))
+                        } else {
+                            format!("{}", si.to_uint(size))
+                        };
+                    } else if let rustc_middle::mir::ConstValue::Indirect { alloc_id, offset } = val {
+                        if let rustc_middle::mir::interpret::GlobalAlloc::Memory(m) =
+                            tcx.global_alloc(alloc_id)
+                        {
+                            let mi = m.inner();
+                            let raw = mi.inspect_with_uninit_and_ptr_outside_interpreter(
+                                offset.bytes() as usize..mi.len(),
+                            );
+                            bytes =
+                                esc(&raw.iter().map(|b| format!("{:02x}", b)).collect::<String>());
+                            for (off, prov) in mi.provenance().ptrs().iter() {
+                                if let rustc_middle::mir::interpret::GlobalAlloc::Memory(m2) =
+                                    tcx.global_alloc(prov.alloc_id())
+                                {
+                                    let m2i = m2.inner();
+                                    let raw2 = m2i
+                                        .inspect_with_uninit_and_ptr_outside_interpreter(0..m2i.len());
+                                    ptrs.push(format!(
+                                        "{{\"offset\":{},\"bytes\":{}}}",
+                                        off.bytes(),
+                                        esc(&raw2
+                                            .iter()
+                                            .map(|b| format!("{:02x}", b))
+                                            .collect::<String>())
+                                    ));
+                                }
                             }
                         }
                     }
                 }
                 out.push(format!(
-                    "{{\"path\":{},\"kind\":\"const\",\"ty\":{},\"v\":{},\"bytes\":{},\"sp\":{}}}",
+                    "{{\"path\":{},\"kind\":\"const\",\"ty\":{},\"v\":{},\"bytes\":{},\"ptrs\":[{}],\"sp\":{}}}",
                     esc(&path_of(tcx, did)),
                     esc(&ty_str(t)),
                     v,
                     bytes,
+                    join(&ptrs),
                     span_json(tcx, tcx.def_span(did))
                 ));
             }
